@@ -2,6 +2,7 @@ package main
 
 import (
 	"fmt"
+	"strings"
 	"go/constant"
 	"go/token"
 	"go/types"
@@ -476,6 +477,19 @@ func (vc *VC) bytesToString(st *State, b Val) string {
 	r := vc.name("reg", "(Array Int Int)", Sel(h, b.Reg))
 	vc.define(Eq(app("slen", s), Ite(Ge(b.Len, "0"), b.Len, "0")))
 	vc.define(fmt.Sprintf("(forall ((i Int)) (! (=> (and (<= 0 i) (< i %s)) (= (sbyte %s i) (select %s (+ %s i)))) :pattern ((sbyte %s i))))", b.Len, s, r, b.Off, s))
+	// ground instances for the first 16 bytes (checksums used as map keys / compared as strings)
+	var g []string
+	for k := 0; k < 16; k++ {
+		ks := numI(int64(k))
+		g = append(g, Imp(Lt(ks, b.Len), Eq(app("sbyte", s, ks), Sel(r, Add(b.Off, ks)))))
+	}
+	vc.define(And(g...))
+	// strings of 16 bytes with the same bytes are the same string
+	var eqs []string
+	for k := 0; k < 16; k++ {
+		eqs = append(eqs, fmt.Sprintf("(= (sbyte a %d) (sbyte b %d))", k, k))
+	}
+	vc.axiom("str_ext16", "(forall ((a Int) (b Int)) (! (=> (and (= (slen a) 16) (= (slen b) 16) "+strings.Join(eqs, " ")+") (= a b)) :pattern ((slen a) (slen b))))")
 	return s
 }
 
